@@ -14,19 +14,19 @@ const (
 
 // ContainerSpec describes the container options of a scenario.
 type ContainerSpec struct {
-	Refresh   int     `json:"refresh"`
-	RateNS    int64   `json:"rate_ns,omitempty"`
-	Terminal  bool    `json:"terminal,omitempty"`
-	TermW     int     `json:"term_w,omitempty"`
-	TermH     int     `json:"term_h,omitempty"`
-	Resizes   []Resize `json:"resizes,omitempty"`
-	Width     int     `json:"width,omitempty"`     // WithWidth (0: not set)
-	QueueLen  int     `json:"queue_len"`           // -1: library default
-	Pop       bool    `json:"pop,omitempty"`       // PopCompletedMode
-	Delay     bool    `json:"delay,omitempty"`     // WithRenderDelay
-	Notifier  int     `json:"notifier,omitempty"`  // 0 none, 1 unbuffered, 2 buffered
-	UserWG    bool    `json:"user_wg,omitempty"`   // WithWaitGroup
-	NoReadNotifier bool `json:"no_read_notifier,omitempty"`
+	Refresh        int      `json:"refresh"`
+	RateNS         int64    `json:"rate_ns,omitempty"`
+	Terminal       bool     `json:"terminal,omitempty"`
+	TermW          int      `json:"term_w,omitempty"`
+	TermH          int      `json:"term_h,omitempty"`
+	Resizes        []Resize `json:"resizes,omitempty"`
+	Width          int      `json:"width,omitempty"`    // WithWidth (0: not set)
+	QueueLen       int      `json:"queue_len"`          // -1: library default
+	Pop            bool     `json:"pop,omitempty"`      // PopCompletedMode
+	Delay          bool     `json:"delay,omitempty"`    // WithRenderDelay
+	Notifier       int      `json:"notifier,omitempty"` // 0 none, 1 unbuffered, 2 buffered
+	UserWG         bool     `json:"user_wg,omitempty"`  // WithWaitGroup
+	NoReadNotifier bool     `json:"no_read_notifier,omitempty"`
 }
 
 // Resize changes the simulated terminal's size from the k-th size query on.
@@ -146,7 +146,7 @@ const (
 	OpTraverse
 	OpPairAC // Aborted() then Completed()
 	OpAvgAdjust
-	OpSpawn // main: start client N (clients not spawned explicitly start before main's ops)
+	OpSpawn     // main: start client N (clients not spawned explicitly start before main's ops)
 	OpJoinFirst // main: wait for clients 0..N-1
 	nOps
 )
@@ -169,7 +169,7 @@ type Op struct {
 
 // StreamSpec describes a copy through a proxy reader or writer.
 type StreamSpec struct {
-	Writer    bool    `json:"writer,omitempty"`   // ProxyWriter instead of ProxyReader
+	Writer    bool    `json:"writer,omitempty"` // ProxyWriter instead of ProxyReader
 	HasClose  bool    `json:"has_close,omitempty"`
 	HasFast   bool    `json:"has_fast,omitempty"` // stub implements WriterTo / ReaderFrom
 	UseCopy   bool    `json:"use_copy,omitempty"` // io.Copy instead of explicit loop
@@ -216,19 +216,19 @@ type SchedSpec struct {
 
 // Scenario is one generated client program plus configuration.
 type Scenario struct {
-	Prop     string        `json:"prop"`
-	Mode     string        `json:"mode,omitempty"`
-	Seed     uint64        `json:"seed"`
-	Cont     ContainerSpec `json:"cont"`
-	Bars     []BarSpec     `json:"bars"`
-	Initial  []int         `json:"initial,omitempty"` // bars added by main before clients start
-	Main     []Op          `json:"main,omitempty"`    // ops of main before Wait
-	Post     []Op          `json:"post,omitempty"`    // ops of main after Wait
-	Clients  [][]Op        `json:"clients,omitempty"`
-	Faults   []Fault       `json:"faults,omitempty"`
-	NoWait   bool          `json:"no_wait,omitempty"`
-	Serial   int           `json:"serial,omitempty"` // C16: run the program this many times in sequence (0/1: once)
-	Sched    SchedSpec     `json:"sched"`
+	Prop    string        `json:"prop"`
+	Mode    string        `json:"mode,omitempty"`
+	Seed    uint64        `json:"seed"`
+	Cont    ContainerSpec `json:"cont"`
+	Bars    []BarSpec     `json:"bars"`
+	Initial []int         `json:"initial,omitempty"` // bars added by main before clients start
+	Main    []Op          `json:"main,omitempty"`    // ops of main before Wait
+	Post    []Op          `json:"post,omitempty"`    // ops of main after Wait
+	Clients [][]Op        `json:"clients,omitempty"`
+	Faults  []Fault       `json:"faults,omitempty"`
+	NoWait  bool          `json:"no_wait,omitempty"`
+	Serial  int           `json:"serial,omitempty"` // C16: run the program this many times in sequence (0/1: once)
+	Sched   SchedSpec     `json:"sched"`
 	// cancel injection (C14): a canceller goroutine acts at scheduling step InjectAt
 	InjectAt   int64 `json:"inject_at,omitempty"`
 	InjectKind int   `json:"inject_kind,omitempty"` // 1 cancel ctx, 2 Shutdown
